@@ -212,11 +212,19 @@ Proof.
   unfold use_unknown_threshold. rewrite !andb_true_iff, negb_true_iff. tauto.
 Qed.
 
+Lemma len_ok_conf_list c g : len_ok c (c_conf c) -> len_ok c (conf_list c g).
+Proof. unfold conf_list. destruct g; [intros _ l H; discriminate|auto]. Qed.
+
+Lemma wider_conf_list {R : Q -> Q -> Prop} c c' g :
+  wider_list R (c_conf c) (c_conf c') -> wider_list R (conf_list c g) (conf_list c' g).
+Proof. unfold conf_list. destruct g; [intros _; exact I|auto]. Qed.
+
 (* ---------------- the sequential predicate is the declarative conjunction ---------------- *)
 Theorem is_target_spec c tf is_gt o :
   wf_cfg c -> obj_ok c is_gt o -> is_target c tf is_gt o = Ok (kept c tf is_gt o).
 Proof.
-  intros (Hx & Hy & HD & Hd & Hp & Hc) Hobj.
+  intros (Hx & Hy & HD & Hd & Hp & Hc0) Hobj.
+  pose proof (len_ok_conf_list c is_gt Hc0) as Hc.
   unfold is_target, kept.
   destruct (lbl_is_fp (o_label o)); [reflexivity|]. rewrite orb_false_l.
   destruct (use_unknown_threshold c is_gt o) eqn:Euut.
@@ -226,7 +234,7 @@ Proof.
       by (destruct (c_targets c) as [[|]|]; reflexivity).
     replace (match c_ignore c with Some _ => true | None => true end) with true
       by (destruct (c_ignore c); reflexivity).
-    rewrite (step_eq true (c_conf c) _ _ (fun _ => Some 0)) by reflexivity. simpl bind.
+    rewrite (step_eq true (conf_list c false) _ _ (fun _ => Some 0)) by reflexivity. simpl bind.
     destruct (position_of tf o) as [[[x y] d]|]; simpl when.
     + unfold in_range.
       rewrite (step_eq _ (c_max_x c) _ _ qmean) by reflexivity. simpl bind.
@@ -254,7 +262,7 @@ Proof.
     { unfold ignored. destruct (c_ignore c); [reflexivity|now rewrite andb_true_r]. }
     rewrite Et2.
     destruct (targeted c o) eqn:Et.
-    + rewrite (step_eq _ (c_conf c) _ _ (bound_for c o)) by (apply lookup_sel; assumption). simpl bind.
+    + rewrite (step_eq _ (conf_list c is_gt) _ _ (bound_for c o)) by (apply lookup_sel; assumption). simpl bind.
       destruct (position_of tf o) as [[[x y] d]|]; simpl when.
       * unfold in_range, num_thr.
         rewrite (step_eq _ (c_max_x c) _ _ (bound_for c o)) by (apply lookup_sel; assumption). simpl bind.
@@ -387,6 +395,18 @@ Proof.
   intros H. unfold is_target. rewrite H. reflexivity.
 Qed.
 
+(* the confidence list never decides on a ground truth (documented: "only used when is_gt=False") *)
+Definition without_conf (c : Cfg) : Cfg :=
+  mkCfg (c_targets c) (c_ignore c) (c_max_x c) (c_max_y c) (c_max_dist c) (c_min_dist c) (c_min_pts c) None (c_uuids c).
+
+Theorem confidence_estimates_only c tf o :
+  is_target c tf true o = is_target (without_conf c) tf true o /\
+  kept c tf true o = kept (without_conf c) tf true o.
+Proof. split; reflexivity. Qed.
+
+Lemma kept_gt_side c tf g : kept (gt_side c) tf true g = kept c tf true g.
+Proof. reflexivity. Qed.
+
 (* ---------------- monotonicity in the bounds ---------------- *)
 Lemma qsum_Forall2_le l l' : Forall2 Qle l l' -> qsum l <= qsum l'.
 Proof. induction 1; simpl; lra. Qed.
@@ -455,7 +475,8 @@ Proof.
     by (unfold use_unknown_threshold, is_contained_unknown; rewrite Wt; reflexivity).
   rewrite Eu. destruct (use_unknown_threshold c is_gt o).
   - rewrite !andb_true_iff. intros [H1 H2]. split.
-    + destruct (c_conf c') as [l'|]; [|reflexivity]. destruct (c_conf c) as [l|]; [|destruct Wc]. exact H1.
+    + pose proof (@wider_conf_list _ c c' is_gt Wc) as Wc'.
+      destruct (conf_list c' is_gt) as [l'|]; [|reflexivity]. destruct (conf_list c is_gt) as [l|]; [|destruct Wc']. exact H1.
     + destruct (position_of tf o) as [p|]; [|reflexivity]. simpl in *.
       eapply in_range_mono; eauto.
       * intros; eapply qmean_mono; eauto.
@@ -464,7 +485,7 @@ Proof.
     assert (Et : targeted c' o = targeted c o) by (unfold targeted; rewrite Wt; reflexivity).
     assert (Ei : ignored c' o = ignored c o) by (unfold ignored; rewrite Wi; reflexivity).
     rewrite Et, Ei. repeat split; auto.
-    + eapply (when_holds_mono (fun a b => b <= a)); eauto.
+    + eapply (when_holds_mono (fun a b => b <= a)); [apply wider_conf_list; exact Wc| | |exact H3].
       * intros; eapply (bound_for_rel (fun a b => b <= a)); eauto.
       * intros v v' Hv. rewrite !Qltb_true. lra.
     + destruct (position_of tf o) as [p|]; [|reflexivity]. simpl in *.
@@ -511,7 +532,7 @@ Definition Kept (c : Cfg) (tf is_gt : bool) (o : Obj) : Prop :=
       mean_sat (c_max_dist c) (fun b => d < b) /\ mean_sat (c_min_dist c) (fun b => b < d))) \/
   (use_unknown_threshold c is_gt o = false /\
    targeted c o = true /\ ignored c o = false /\
-   bound_sat c o (c_conf c) (fun thr => thr < o_conf o) /\
+   (is_gt = false -> bound_sat c o (c_conf c) (fun thr => thr < o_conf o)) /\
    (forall x y d, position_of tf o = Some (x, y, d) ->
       bound_sat c o (c_max_x c) (fun b => qabs x < b) /\ bound_sat c o (c_max_y c) (fun b => qabs y < b) /\
       bound_sat c o (c_max_dist c) (fun b => d < b) /\ bound_sat c o (c_min_dist c) (fun b => b < d) /\
@@ -555,8 +576,9 @@ Qed.
 Theorem kept_iff_Kept c tf is_gt o : kept c tf is_gt o = true <-> Kept c tf is_gt o.
 Proof.
   unfold kept, Kept. destruct (lbl_is_fp (o_label o)); [simpl; tauto|]. rewrite orb_false_l.
-  destruct (use_unknown_threshold c is_gt o).
-  - rewrite andb_true_iff. split.
+  destruct (use_unknown_threshold c is_gt o) eqn:Euut.
+  - pose proof (uut_not_gt _ _ _ Euut) as Eg. subst is_gt. change (conf_list c false) with (c_conf c).
+    rewrite andb_true_iff. split.
     + intros [H1 H2]. right; left. split; [reflexivity|]. split.
       * destruct (c_conf c); [|congruence]. intros _. simpl in H1. apply Qltb_true; assumption.
       * intros x y d Hp. rewrite Hp in H2. simpl in H2. apply in_range_iff in H2. exact H2.
@@ -565,10 +587,10 @@ Proof.
       * destruct (position_of tf o) as [[[x y] d]|]; [|reflexivity]. simpl. apply in_range_iff.
         apply (H2 x y d eq_refl).
   - rewrite !andb_true_iff, negb_true_iff.
-    rewrite (when_holds_iff (c_conf c) (bound_for c o) _ (fun thr => thr < o_conf o)) by (intros; apply Qltb_true).
+    rewrite (when_holds_iff (conf_list c is_gt) (bound_for c o) _ (fun thr => thr < o_conf o)) by (intros; apply Qltb_true).
     split.
     + intros [[[[H1 H2] H3] H4] H5]. right; right.
-      split; [reflexivity|]. split; [exact H1|]. split; [exact H2|]. split; [exact H3|]. split.
+      split; [reflexivity|]. split; [exact H1|]. split; [exact H2|]. split; [intros Eg; subst is_gt; exact H3|]. split.
       * intros x y d Hp. rewrite Hp in H4. simpl in H4. rewrite andb_true_iff in H4. destruct H4 as [H4 H6].
         apply in_range_iff in H4. destruct H4 as (A1 & A2 & A3 & A4).
         split; [exact A1|]. split; [exact A2|]. split; [exact A3|]. split; [exact A4|].
@@ -578,6 +600,7 @@ Proof.
         destruct (o_uuid o) as [u|]; [|discriminate]. exists u. split; [reflexivity|]. apply mem_str_In; assumption.
     + intros [H|[(H & _)|(_ & H1 & H2 & H3 & H4 & H5)]]; try discriminate.
       split; [split; [split; [split|]|]|]; auto.
+      * unfold conf_list. destruct is_gt; [intros l E; discriminate|apply H3; reflexivity].
       * destruct (position_of tf o) as [[[x y] d]|]; [|reflexivity]. simpl.
         destruct (H4 x y d eq_refl) as (A1 & A2 & A3 & A4 & A5). rewrite andb_true_iff. split.
         -- apply in_range_iff. auto.
@@ -595,7 +618,8 @@ Theorem missing_targets_raise c tf is_gt o l x y d :
   position_of tf o = Some (x, y, d) ->
   is_target c tf is_gt o = ErrType.
 Proof.
-  intros Ht Hi Hc Hx Hfp Hu Hp. unfold is_target. rewrite Hfp, Hu, Ht, Hi, Hc, Hp, Hx. simpl.
+  intros Ht Hi Hc Hx Hfp Hu Hp. unfold is_target, conf_list. rewrite Hfp, Hu, Ht, Hi, Hc, Hp, Hx.
+  replace (if is_gt then None else None) with (@None (list Q)) by (destruct is_gt; reflexivity). simpl.
   unfold label_thr. rewrite Ht. reflexivity.
 Qed.
 
@@ -607,7 +631,8 @@ Theorem short_list_raises c tf is_gt o ts l i x y d :
   position_of tf o = Some (x, y, d) ->
   is_target c tf is_gt o = ErrIndex.
 Proof.
-  intros Ht Hne Hi Hlen Hig Hc Hx Hfp Hu Hp. unfold is_target. rewrite Hfp, Hu, Ht, Hig, Hc, Hp, Hx.
+  intros Ht Hne Hi Hlen Hig Hc Hx Hfp Hu Hp. unfold is_target, conf_list. rewrite Hfp, Hu, Ht, Hig, Hc, Hp, Hx.
+  replace (if is_gt then None else None) with (@None (list Q)) by (destruct is_gt; reflexivity).
   assert (Hm : mem_nat (o_label o) ts = true).
   { clear -Hi. revert i Hi. induction ts as [|y0 t IH]; simpl; intros i Hi; [discriminate|].
     destruct (Nat.eqb (o_label o) y0); [reflexivity|]. simpl.
